@@ -295,6 +295,14 @@ def r12(fx):
             yield o
 
 
+@rule('C01', 'R13', 32, 'the count indicator is as wide as the reader expects: version_range puts every version into its ISO class; a requested version that cannot hold the content is refused, never kept with content cut off (C04.R2, C04.R4)')
+def r13(fx):
+    for o in p04.r2(fx):
+        if 'version_range' in o.key:
+            yield o
+    yield from p04.r4(fx)
+
+
 @rule('C01', 'R3', 300, 'bits written = bits budgeted (write_segment + SA header vs bit_length_with_overhead), all versions/modes/ECI/SA')
 def r3(fx):
     yield from p04.sized_equals_written(fx)
